@@ -363,6 +363,10 @@ def mutants(chk, ids):
         for m in cat:
             prop = m["property"]
             pl = chk.PLAN[prop]
+            if m.get("control"):
+                # a behaviour-preserving edit must not be flagged by ANY property on ANY trace: run everything
+                pl = {"families": sorted({(f if isinstance(f, str) else f[0]) for p in chk.PLAN.values() for f in p.get("families", [])}),
+                      "gen_quick": sorted({g for p in chk.PLAN.values() for k in ("gen", "gen_quick") for g in p.get(k, [])})}
             subprocess.run(["git", "-C", "/repo", "worktree", "remove", "--force", wt], stdout=subprocess.DEVNULL, stderr=subprocess.DEVNULL)
             subprocess.run(["git", "-C", "/repo", "worktree", "add", "--detach", wt, "HEAD"], stdout=subprocess.DEVNULL, stderr=subprocess.DEVNULL, check=True)
             subprocess.run(["git", "-C", wt, "apply", os.path.join(chk.ROOT, "selftest", "mutants", m["id"] + ".patch")], check=True)
